@@ -1,6 +1,8 @@
 import MorfuseModel.Sched.Snapshot
 import MorfuseModel.Sched.MachineHostSL
 import MorfuseModel.Sched.MachineHostSLTrace
+import MorfuseModel.Sched.MachineInstOut
+import MorfuseModel.Sched.MachineSlotsHost
 import MorfuseModel.Props.C06
 /-!
 # C09 — save, reset, load resumes scripts exactly where an uninterrupted run would be
@@ -272,5 +274,212 @@ example :
     (hostReset (load (killAllInsts (runOps (runOps {} demoSL) [.step 5, .takeOut])) (save (runOps {} demoSL)))).outOfFuel = false ∧
     (hostReset (load (killAllInsts (runOps (runOps {} demoSL) [.step 5, .takeOut])) (save (runOps {} demoSL)))).threads = [] := by
   decide +kernel
+
+/-! ## Save, **Reset**, load: the context an actual `Reset()` leaves
+
+`C09_roundtrip` above loads into *any* context that agrees with the saved state on what is not archived.  The theorems
+below discharge those hypotheses for the contexts the engine really produces:
+
+* the driver's `load` command (`lean/Driver/Sched.lean`: `load (killAllInsts st.s) k`) — `killAllInsts` is the `Reset()`
+  *inside* `ScriptMaster::Archive` while reading; the compiled program survives it in the model because the engine reads the
+  script back by name through the host's file interface during the load;
+* an explicit `director.Reset()` of the host (`hostReset`, the driver's `reset-director`: `killAllInsts` **and** `prog := []`)
+  between the `save` and the `load`, with or without a recompilation (`hostScript`, the driver's `script` command) of the
+  same program before the `load`.
+
+Correspondence with the engine (`harness/engine.cpp`, command `load`: `GetDirector().Reset()`, then the archive is read and
+brings the program back **by name** through the host's file interface): the model folds "Reset forgets the program, the read
+reinstalls it" into "`killAllInsts` keeps `prog`".  Consequence, and a **stated model limitation**: for `save; reset-director;
+load` *without* recompiling, the engine continues like the uninterrupted run (checked engine vs engine at every boundary by
+tools/props/c09.py), while the model's `load` finds no program in the present context and installs none — the second
+equation of `C09_save_reset_load_general` says exactly what the model does there (`prog = []`), it is a fact about the
+model, not about the engine.  The first and third compositions are compared machine vs engine on every run.
+
+`Reset()` in a state with the invariants keeps `prog`/`progParams` (`killAllInsts` only), the three clock fields, the host's
+objects, the output, the host-call records and `nextCall`, and leaves no queued event (`C09_reset_keeps_host_part`). -/
+
+/-- the state `s` as the archive can hold it: no thread record linked to a host-call record any more (the host's `Event` is
+    not archived — `C09_host_result_link_dropped`), no posted timeout event (posted events are not archived, `Reset()`
+    cancels them).  Every other field is that of `s`. -/
+def archivable (s : State) : State :=
+  { s with threads := s.threads.map (fun e => (e.1, { e.2 with call := none })), events := [] }
+
+/-- `archivable s = s` exactly when no thread owes a result to a host `Event` and no timeout event is posted -/
+theorem archivable_eq_self (s : State) (hcalls : ∀ e ∈ s.threads, e.2.call = none) (hev : s.events = []) :
+    archivable s = s := by
+  have hthreads : s.threads.map (fun e => (e.1, { e.2 with call := none })) = s.threads := by
+    have : ∀ e ∈ s.threads, (fun (e : Nat × Th) => (e.1, { e.2 with call := none })) e = e := by
+      intro e he
+      have := hcalls e he
+      cases e with | mk a th => cases th; simp_all
+    calc s.threads.map (fun e => (e.1, { e.2 with call := none }))
+        = s.threads.map id := List.map_congr_left this
+      _ = s.threads := List.map_id _
+  unfold archivable
+  rw [hthreads]
+  cases s
+  simp_all
+
+/-- **What `Reset()` keeps.**  `killAllInsts` (the `Reset()` inside `load`; `hostReset` is this plus `prog := []`) in a
+    state with the host-level invariants, unless it runs out of fuel: program, clocks, host objects, output, host-call
+    records and their counter are untouched; no posted event is left. -/
+theorem C09_reset_keeps_host_part {s : State} (hi : HInv3 s) (ho : (killAllInsts s).outOfFuel = false) :
+    (killAllInsts s).prog = s.prog ∧ (killAllInsts s).progParams = s.progParams ∧ (killAllInsts s).clock = s.clock ∧
+    (killAllInsts s).scaled = s.scaled ∧ (killAllInsts s).lastClock = s.lastClock ∧ (killAllInsts s).objs = s.objs ∧
+    (killAllInsts s).out = s.out ∧ (killAllInsts s).calls = s.calls ∧ (killAllInsts s).nextCall = s.nextCall ∧
+    (killAllInsts s).events = [] := by
+  have hc := (killAllInsts_hr s).ht.c3
+  simp only [Prod.mk.injEq] at hc
+  exact ⟨(killAllInsts_pres s).prog, (killAllInsts_pres s).params, hc.1, hc.2.1, hc.2.2,
+    killAllInsts_objs hi.h2.h.inv.n hi.h2.j, killAllInsts_ou hi.h2.h.inv.n hi.h2.j,
+    killAllInsts_ck hi.h2.h.inv.n hi.h2.j, (killAllInsts_sr s).nc, ((killAllInsts_empty hi).get ho).2.2.1⟩
+
+/-- loading a snapshot of `s` into a context that agrees with `s` on the host part and has no posted event gives
+    `archivable s` (no hypothesis on the links or the events of `s`) -/
+theorem load_save_of_context (s X : State) (hcur : s.cur = none) (hdepth : s.depth = 0) (hfuel : s.outOfFuel = false)
+    (hprog : X.prog = s.prog) (hpp : X.progParams = s.progParams) (hclock : X.clock = s.clock)
+    (hscaled : X.scaled = s.scaled) (hlast : X.lastClock = s.lastClock) (hobjs : X.objs = s.objs)
+    (hout : X.out = s.out) (hc : X.calls = s.calls) (hnc : X.nextCall = s.nextCall) (hev : X.events = []) :
+    load X (save s) = archivable s := by
+  cases s; cases X
+  simp only [load, save, archivable] at *
+  simp_all
+
+/-- `Reset()` of a state without instances does nothing -/
+theorem killAllInsts_of_no_insts (X : State) (h : X.insts = []) : killAllInsts X = X := by
+  unfold killAllInsts; rw [h]; rfl
+
+/-- **Save, Reset, load — general form, no hypothesis on host links or posted events.**  For every state `s` the driver
+    can reach (any commands, earlier `save`/`load` included) that has not run out of fuel and whose `Reset()` does not run
+    out of fuel:
+    1. the driver's `save; load` (`load` = `Reset()` + read back) yields `archivable s`: `s` with the host-call links of
+       its threads dropped and its posted timeout events gone — every other field, clock, program, output, host records
+       included, is that of `s`;
+    2. `save; reset-director; load` (an explicit `director.Reset()` in between) yields the same state **except `prog` and
+       `progParams`, which are `[]`**: `hostReset` forgets the compiled program and the model's `load` does not reinstall it
+       (the model takes the program from the present context);
+    3. `save; reset-director; script p; load` with the same program `p = s.prog` recompiled before the load yields
+       `archivable s` again. -/
+theorem C09_save_reset_load_general {s : State} {k : Option Snap} (h : ReachableSL s k)
+    (hfuel : s.outOfFuel = false) (ho : (killAllInsts s).outOfFuel = false) :
+    load (killAllInsts s) (save s) = archivable s ∧
+    load (killAllInsts (hostReset s)) (save s) = { archivable s with prog := [], progParams := [] } ∧
+    load (killAllInsts (hostScript (hostReset s) s.prog s.progParams)) (save s) = archivable s := by
+  have hi : HInv3 s := (reachableSL_hinv3 h).1.get hfuel
+  obtain ⟨e1, e2, e3, e4, e5, e6, e7, e8, e9, e10⟩ := C09_reset_keeps_host_part hi ho
+  have hins : (killAllInsts s).insts = [] := ((killAllInsts_empty hi).get ho).2.1
+  have a1 : load (killAllInsts s) (save s) = archivable s :=
+    load_save_of_context s _ hi.h2.h.cur hi.h2.h.depth hfuel e1 e2 e3 e4 e5 e6 e7 e8 e9 e10
+  have hR : killAllInsts (hostReset s) = hostReset s := killAllInsts_of_no_insts _ hins
+  have hS : hostScript (hostReset s) s.prog s.progParams = { killAllInsts s with prog := s.prog, progParams := s.progParams } := rfl
+  have hS' : killAllInsts (hostScript (hostReset s) s.prog s.progParams) =
+      { killAllInsts s with prog := s.prog, progParams := s.progParams } := by
+    rw [hS]; exact killAllInsts_of_no_insts _ hins
+  refine ⟨a1, ?_, ?_⟩
+  · rw [hR, ← a1]; rfl
+  · rw [hS']
+    exact load_save_of_context s _ hi.h2.h.cur hi.h2.h.depth hfuel rfl rfl e3 e4 e5 e6 e7 e8 e9 e10
+
+/-- **C09, save – Reset – load round trip.**  For every state `s` the driver can reach with any commands (`Reachable`
+    plus earlier `save`/`load`), not out of fuel, whose `Reset()` does not run out of fuel, in which
+    * `hcalls`: no thread record is linked to a host-call record — this **excludes** the states in which a thread started
+      by the host through an `Event` (driver `call`, not `callv`) has not ended yet (the link is set at the call and stays
+      on the record while the thread is suspended): the link is not archived, after the load the record stays `pending`
+      for ever (`C09_save_reset_load_general` says what the loaded state is then).  It cannot be dropped: `load` sets
+      `call := none` by definition, so with a linked thread `load X (save s) ≠ s` for every context `X`;
+    * `hev`: no timeout event is posted — this **excludes** the states in which a thread sits in `waittill … timeout`
+      (posted events are not archived; `Reset()` cancels them);
+    the driver's `save; load` gives back **exactly `s`** (every field), and so does `save; reset-director; script s.prog;
+    load`; `save; reset-director; load` without recompiling gives `s` without its program.  No hypothesis on the context:
+    the context is the one `Reset()` produces (`C09_reset_keeps_host_part`, `killAllInsts_empty` = the emptiness facts of
+    `C13_machine_reset_clean`); no hypothesis on objects: `Reset()` keeps the host's objects.
+    Hence (`congrArg`) every future — any function of the state — of the loaded engine equals that of the uninterrupted one. -/
+theorem C09_save_reset_load_roundtrip {s : State} {k : Option Snap} (h : ReachableSL s k)
+    (hfuel : s.outOfFuel = false) (ho : (killAllInsts s).outOfFuel = false)
+    (hcalls : ∀ e ∈ s.threads, e.2.call = none) (hev : s.events = []) :
+    load (killAllInsts s) (save s) = s ∧
+    load (killAllInsts (hostScript (hostReset s) s.prog s.progParams)) (save s) = s ∧
+    load (killAllInsts (hostReset s)) (save s) = { s with prog := [], progParams := [] } ∧
+    ∀ {α : Type} (future : State → α), future (load (killAllInsts s) (save s)) = future s := by
+  obtain ⟨a1, a2, a3⟩ := C09_save_reset_load_general h hfuel ho
+  rw [archivable_eq_self s hcalls hev] at a1 a2 a3
+  exact ⟨a1, a3, a2, fun future => by rw [a1]⟩
+
+/-- **`hcalls` is necessary**: whatever the context, if loading the snapshot of `s` gives back `s`, then no thread of `s`
+    was linked to a host-call record (`load` never restores a link) — and no event was posted if the context had none -/
+theorem C09_roundtrip_hypotheses_necessary (s X : State) (h : load X (save s) = s) :
+    (∀ e ∈ s.threads, e.2.call = none) ∧ (X.events = [] → s.events = []) := by
+  refine ⟨fun e he => C09_host_result_link_dropped X (save s) e (by rw [h]; exact he), fun hx => ?_⟩
+  have : (load X (save s)).events = X.events := rfl
+  rw [h] at this
+  rw [this, hx]
+
+/-- the `load` of the round trip is a legal driver command: its side conditions in `ReachableSL.load` (the implied
+    `Reset()` has fuel left; the objects that are wait sources in the snapshot exist) follow, the second one from the
+    invariant — so the loaded state is again reachable and everything proved about reachable states applies to it -/
+theorem C09_save_load_is_reachable {s : State} {k : Option Snap} (h : ReachableSL s k)
+    (hfuel : s.outOfFuel = false) (ho : (killAllInsts s).outOfFuel = false) :
+    ReachableSL (load (killAllInsts s) (save s)) (some (save s)) := by
+  have hi : HInv3 s := (reachableSL_hinv3 h).1.get hfuel
+  refine ReachableSL.load (ReachableSL.save h hfuel) ho (fun o n x hx ho' => ?_)
+  have ha := (hi.h2.h.inv.tab.aN o n x hx).1
+  have hth : State.isThread o = false := by simp [State.isThread]; omega
+  rw [State.alive_obj _ hth] at ha
+  exact ha
+
+/-! ### non-vacuity: the save / run-on / load demo state -/
+
+/-- the state of `demoSL` at its save point (a timed thread and a thread waiting on the level object, started by a host
+    call that has returned) satisfies every hypothesis of the round trip except `hcalls`: the timed thread is still
+    linked to host call 1 -/
+example :
+    (runOps {} demoSL).outOfFuel = false ∧ (killAllInsts (runOps {} demoSL)).outOfFuel = false ∧
+    (runOps {} demoSL).events = [] ∧ (runOps {} demoSL).threads.map (fun e => e.2.call) = [some 1, none] ∧
+    (runOps {} demoSL).threads.map (·.1) = [100, 101] := by
+  decide +kernel
+
+/-- the general form applies there: the loaded state is the saved one with the link of thread 100 dropped — and that
+    is a different state -/
+example :
+    load (killAllInsts (runOps {} demoSL)) (save (runOps {} demoSL)) = archivable (runOps {} demoSL) ∧
+    (archivable (runOps {} demoSL)).threads.map (fun e => e.2.call) = [none, none] ∧
+    (archivable (runOps {} demoSL)).timer.elems = [(100, 5)] ∧ (archivable (runOps {} demoSL)).calls = [(1, .pending)] :=
+  ⟨(C09_save_reset_load_general (Reachable.toSL ((reachable_iff _).2 ⟨demoSL, by decide, rfl⟩))
+      (by decide +kernel) (by decide +kernel)).1, by decide +kernel⟩
+
+/-- the run-on state of the demo (clock 5: the linked thread has ended, the thread waiting on `level` is left, a
+    snapshot is held) satisfies **every** hypothesis of `C09_save_reset_load_roundtrip`; saving it, resetting and
+    loading gives it back -/
+example :
+    load (killAllInsts (runOps (runOps {} demoSL) [.step 5, .takeOut])) (save (runOps (runOps {} demoSL) [.step 5, .takeOut]))
+      = runOps (runOps {} demoSL) [.step 5, .takeOut] ∧
+    (runOps (runOps {} demoSL) [.step 5, .takeOut]).threads.map (·.1) = [101] ∧
+    (runOps (runOps {} demoSL) [.step 5, .takeOut]).notify = [((50, 7), [101])] :=
+  ⟨(C09_save_reset_load_roundtrip demoSL_reachable (by decide +kernel) (by decide +kernel) (by decide +kernel)
+      (by decide +kernel)).1, by decide +kernel⟩
+
+/-- the same program started without a host `Event` (`callv`): at the save point a timed thread with its timer element
+    and a thread waiting on `level`, no link; all hypotheses hold, all three compositions behave as stated -/
+def demoSLv : List HostOp :=
+  [.script [[.thread 1, .wait 5, .mark 1], [.waittill 50 [7], .mark 2]] [0, 0], .callv 0, .takeOut]
+
+example :
+    load (killAllInsts (runOps {} demoSLv)) (save (runOps {} demoSLv)) = runOps {} demoSLv ∧
+    load (killAllInsts (hostScript (hostReset (runOps {} demoSLv)) (runOps {} demoSLv).prog (runOps {} demoSLv).progParams))
+      (save (runOps {} demoSLv)) = runOps {} demoSLv ∧
+    (runOps {} demoSLv).threads.map (·.1) = [100, 101] ∧ (runOps {} demoSLv).timer.elems = [(100, 5)] ∧
+    (runOps {} demoSLv).notify = [((50, 7), [101])] ∧ (runOps {} demoSLv).prog.length = 2 ∧
+    (hostReset (runOps {} demoSLv)).threads = [] ∧ (hostReset (runOps {} demoSLv)).prog = [] :=
+  have h := C09_save_reset_load_roundtrip (Reachable.toSL ((reachable_iff _).2 ⟨demoSLv, by decide, rfl⟩))
+    (by decide +kernel) (by decide +kernel) (by decide +kernel) (by decide +kernel)
+  ⟨h.1, h.2.1, by decide +kernel⟩
+
+/-- necessity, non-vacuously: the round trip of `demoSLv` holds, so its two hypotheses do; at the save point of `demoSL`
+    (thread 100 linked) no context whatsoever gives the state back -/
+example : (∀ e ∈ (runOps {} demoSLv).threads, e.2.call = none) ∧ ∀ X : State, load X (save (runOps {} demoSL)) ≠ runOps {} demoSL :=
+  ⟨(C09_roundtrip_hypotheses_necessary _ _
+      (C09_save_reset_load_roundtrip (Reachable.toSL ((reachable_iff _).2 ⟨demoSLv, by decide, rfl⟩))
+        (by decide +kernel) (by decide +kernel) (by decide +kernel) (by decide +kernel)).1).1,
+   fun X h => absurd ((C09_roundtrip_hypotheses_necessary _ X h).1) (by decide +kernel)⟩
 
 end Morfuse.Sched
